@@ -7,7 +7,8 @@
 //	index   RemoteHTTPIndex <-> httptest <-> NewHTTPIndexHandler <-> LocalIndexStore, GET/HEAD/PUT (index_test.go)
 //	script  RemoteHTTP / RemoteHTTPIndex against a scripted server that answers attempt k with the
 //	        k-th generated response; judged by a reference model of the retry policy      (script_test.go)
-//	proto   desync.Protocol client against desync.NewProtocolServer over io.Pipe pairs     (proto_test.go)
+//	proto   desync.Protocol clients against desync.NewProtocolServer over io.Pipe pairs; returned
+//	        chunks are held and consumed later through their storage form   (proto_test.go, held_test.go)
 package c14
 
 import (
@@ -78,9 +79,10 @@ var spec = &hx.Spec[Case]{
 	Rule: "cases = (matrix) client/server/upstream compression x skip-verify per hop x writable x history of get/has/put/put-invalid over chunks planted as present/missing/other-format-only/corrupt; " +
 		"(index) history of get/reader/head/put over index names planted as present/missing/garbage; " +
 		"(script) method x ErrorRetry 0..4 x per-attempt server responses (200, 404, 400/401/403, 500/502/503, connection close/RST, truncated body) of length <= 6, all scripts of length <= 4 x retry 0..3 enumerated for GetChunk and HasChunk; " +
-		"(proto) casync protocol session over pipes with present/missing/corrupt chunks and a closed or cut connection. " +
+		"(proto) 1..3 casync protocol sessions over pipes on one store with present/missing/corrupt chunks, repeated IDs, large-then-smaller-or-equal reply orders and a closed or cut connection; " +
+		"every chunk a session returned is held and consumed later (at generated points and after the history) through a compressed and an uncompressed HTTP chunk server, a cache writing to a compressed LocalStore and an uncompressed LocalStore. " +
 		"non-trivial = matrix case in which compression settings differ between at least two of the three hops, script with >= 1 transient failure followed by a terminal response within the attempts made, " +
-		"index history touching a present and an absent name, protocol session with a present and a non-present request or a broken connection; distinct by configuration + history shape",
+		"index history touching a present and an absent name, protocol history with a present and a non-present request, a broken connection, or a held chunk followed on its session by a different reply that is not larger; distinct by configuration + history shape",
 	Assumptions: []string{
 		"plain HTTP/1.1 on loopback through net/http/httptest; TLS, HTTP/2, proxies and real ssh are not in the loop",
 		"scripted server disables keep-alive so that every desync attempt is exactly one request on a fresh connection (net/http's own transparent retry of idempotent requests on reused connections is outside the policy under test)",
@@ -89,6 +91,7 @@ var spec = &hx.Spec[Case]{
 		"upstream back door reads/writes chunk files with klauspost zstd directly and chunk IDs with crypto/sha512 directly; index bytes by the independent caibx codec in internal/ref",
 		"casync protocol: a server that ends the session after answering MISSING or after a store failure is accepted (DESIGN section 6, judged outside the statement); the harness then closes the server's pipe ends like a process exit would",
 		"zero-length chunks are not generated (no chunker produces them)",
+		"a chunk handed out by a transport stays valid for its holder while the transport is used further (Store.GetChunk has no lifetime restriction: chunk servers, caches and the assembler all keep chunks while other requests run on the same store); held chunks are read, never modified, by the check",
 	},
 	Required: []string{
 		"mode:matrix", "mode:index", "mode:script", "mode:proto",
@@ -101,6 +104,8 @@ var spec = &hx.Spec[Case]{
 		"script:kind:reset", "script:kind:short", "script:kind:5xx",
 		"script:m:getchunk", "script:m:haschunk", "script:m:storechunk", "script:m:getindex", "script:m:storeindex",
 		"proto:present", "proto:missing", "proto:corrupt", "proto:break:close", "proto:break:cut", "proto:store:mem", "proto:store:local", "proto:store:local-unc",
+		"proto:sessions:1", "proto:sessions:2+", "proto:held-consumed-later", "proto:large-then-small", "proto:held-repeat-id", "proto:held-on-several-sessions",
+		"proto:held-then-session-end", "proto:check:intermediate",
 	},
 	Gen:      genCase,
 	Run:      run,
